@@ -776,7 +776,28 @@ def _builtin_exc(name):
     obj = getattr(builtins, short, None)
     if isinstance(obj, type) and issubclass(obj, BaseException):
         return obj
+    # exception classes of a few standard-library modules the repository uses (the classes are data of the interpreter the
+    # analysis runs on; no repository code is involved)
+    if short in _STDLIB_EXC:
+        import importlib
+        mod, attr = _STDLIB_EXC[short]
+        try:
+            obj = getattr(importlib.import_module(mod), attr)
+        except Exception:
+            return None
+        if isinstance(obj, type) and issubclass(obj, BaseException):
+            return obj
     return None
+
+
+_STDLIB_EXC = {"binascii.Error": ("binascii", "Error"), "binascii.Incomplete": ("binascii", "Incomplete"), "json.JSONDecodeError": ("json", "JSONDecodeError"),
+               "json.decoder.JSONDecodeError": ("json", "JSONDecodeError"), "socket.gaierror": ("socket", "gaierror"), "socket.herror": ("socket", "herror"),
+               "io.UnsupportedOperation": ("io", "UnsupportedOperation"), "ssl.SSLWantReadError": ("ssl", "SSLWantReadError"), "ssl.SSLWantWriteError": ("ssl", "SSLWantWriteError"),
+               "ssl.SSLEOFError": ("ssl", "SSLEOFError"), "ssl.SSLZeroReturnError": ("ssl", "SSLZeroReturnError"), "ssl.CertificateError": ("ssl", "CertificateError"),
+               "argparse.ArgumentError": ("argparse", "ArgumentError"), "subprocess.CalledProcessError": ("subprocess", "CalledProcessError"),
+               "queue.Empty": ("queue", "Empty"), "queue.Full": ("queue", "Full"), "concurrent.futures.TimeoutError": ("concurrent.futures", "TimeoutError"),
+               "concurrent.futures.CancelledError": ("concurrent.futures", "CancelledError"), "struct.error": ("struct", "error"), "re.error": ("re", "error"),
+               "configparser.Error": ("configparser", "Error"), "zlib.error": ("zlib", "error"), "http.client.HTTPException": ("http.client", "HTTPException")}
 
 
 builtin_exc = _builtin_exc
